@@ -136,6 +136,27 @@ DhStep(st, tok) ==
   ELSE IF st.pp.validates /\ o.pub[1] # "pub" THEN [cause |-> "DH_INVALID", ss |-> st.ss]
   ELSE [cause |-> "none", ss |-> MixKey(st.ss, DH(o.priv, o.pub))]
 
+(* ---- the length a message has by its STRUCTURE alone --------------------- *)
+(* (tokens of the message, whether a key is set when each field is written,   *)
+(* payload length) - independent of whether the keys the tokens need are      *)
+(* there.  An implementation may test the buffer / the 65535 limit against    *)
+(* this length before it looks at anything else, so when it does not fit,     *)
+(* Input is an acceptable answer whatever else is wrong with the call.        *)
+RECURSIVE StructLen(_, _, _, _)
+StructLen(pp, toks, hk, acc) ==      \* returns <<length of the token fields, key set afterwards>>
+  IF toks = <<>> THEN <<acc, hk>>
+  ELSE LET t == Head(toks) rest == Tail(toks) tg == IF hk THEN TAGLEN ELSE 0 IN
+       CASE t = "e"           -> StructLen(pp, rest, hk \/ IsPsk(pp.psks), acc + pp.publen)
+         [] t = "s"           -> StructLen(pp, rest, hk, acc + pp.publen + tg)
+         [] t \in PskTokens   -> StructLen(pp, rest, TRUE, acc)
+         [] t \in DhTokens    -> StructLen(pp, rest, TRUE, acc)
+         [] t = "e1"          -> StructLen(pp, rest, hk, acc + KEMPUBLEN + tg)
+         [] t = "ekem1"       -> StructLen(pp, rest, TRUE, acc + KEMCTLEN + tg)
+MsgStructLen(st, plen) ==
+  LET r == StructLen(st.pp, MsgTokensH(st.pp.pat, st.pp.psks, st.pp.hfs, st.pos + 1), st.ss.hk, 0) IN
+  r[1] + plen + (IF r[2] THEN TAGLEN ELSE 0)
+FixedStructLen(st) == MsgStructLen(st, 0)      \* the shortest message of this step a reader can be given
+
 (* ---- WriteMessage ----------------------------------------------------- *)
 WRes(st, idx, fields, cause) == [st |-> st, idx |-> idx, fields |-> fields, cause |-> cause]
 
